@@ -48,6 +48,8 @@ def build_theory(t):
     from holopy.scattering.theory.mielens import AberratedMieLens
     nm = t["t"]
     kw = dict(t.get("kw", {}))
+    if nm == "auto":
+        return "auto"
     if nm == "Mie":
         return Mie(**kw)
     if nm == "Multisphere":
@@ -160,6 +162,9 @@ def gen_sphere(rng, optics, xmax=25.0, xmin=0.1, center=None, zrange=(5.0, 30.0)
     k = kmed(optics)
     x = float(loguniform(rng, xmin, xmax))
     c = center or [float(rng.uniform(0, extent)), float(rng.uniform(0, extent)), float(rng.uniform(*zrange))]
+    if center is None and rng.random() < 0.12:
+        # whole-number positions written as Python ints (what a user types: center=(1, 0, 12)), incl. exact zeros
+        c = [int(round(c[0])), int(round(c[1])), int(max(1, round(c[2]))) if c[2] > 0 else int(min(-1, round(c[2])))]
     return {"t": "sphere", "n": gen_index(rng, optics, absorbing), "r": x / k, "c": c}
 
 
